@@ -1,8 +1,89 @@
 import JrsVerif.Common.J
+import JrsVerif.Model.Intern
 
 namespace JrsVerif.Drv.C18
-open Lean JrsVerif.J
+open Lean JrsVerif.J JrsVerif.Intern
 
-def handle (_op : String) (_j : Json) : Option Json := none
+def natsOf (j : Json) : Option (List Nat) :=
+  match j with
+  | .arr a => some (nats a)
+  | _ => none
+
+/-- ops travel as arrays: ["is",[bytes]] ["ib",[bytes]] ["cl",i] ["dr",i] ["cs",i] ["cb",i] ["ho"] -/
+def parseOp (j : Json) : Option Op :=
+  match j with
+  | .arr a =>
+    let tag : String := match a[0]? with | some (Json.str t) => t | _ => ""
+    let arg : Json := a[1]?.getD Json.null
+    match tag with
+    | "is" => (natsOf arg).map Op.internStr
+    | "ib" => (natsOf arg).map Op.internBytes
+    | "cl" => arg.getNat?.toOption.map Op.clone
+    | "dr" => arg.getNat?.toOption.map Op.drop
+    | "cs" => arg.getNat?.toOption.map Op.castStr
+    | "cb" => arg.getNat?.toOption.map Op.castBytes
+    | "ho" => some Op.handover
+    | _ => none
+  | _ => none
+
+def obsJson (o : Obs) : Json :=
+  obj [("pool", toJson o.poolLen),
+       ("hs", .arr (o.hs.map (fun h =>
+          Json.arr #[ofNats h.data, toJson h.isStr, toJson h.rc, toJson h.cls, toJson h.pooled])).toArray)]
+
+/-- observation after every op; a model panic / an op the spec does not allow ends the trace -/
+def traceModel (s : St) : List Op → List Json
+  | [] => []
+  | op :: ops => match step s op with
+    | none => [.str "panic"]
+    | some s' => obsJson (obs s') :: traceModel s' ops
+
+def traceSpec (s : Spec.SSt) : List Op → List Json
+  | [] => []
+  | op :: ops => match Spec.step s op with
+    | none => [.str "invalid"]
+    | some s' => obsJson (Spec.obs s') :: traceSpec s' ops
+
+/-- pool size after the client drops every value it still holds (`drop 0` until none is left) -/
+def endModel (s : St) : List Op → Json
+  | [] =>
+    match (List.range s.hs.length).foldlM (fun s _ => step s (.drop 0)) s with
+    | some s' => toJson s'.pool.length
+    | none => .str "panic"
+  | op :: ops => match step s op with
+    | none => .str "panic"
+    | some s' => endModel s' ops
+
+def lastOnly (every : Bool) (l : List Json) : Json :=
+  if every then .arr l.toArray else .arr (l.getLast?.toList).toArray
+
+/-- `intern.replay` : {"ops":[..],"every":bool} → observations of the coded protocol (model) and of
+    the reference meaning (spec) after every op (or after the last one only) -/
+def handle (op : String) (j : Json) : Option Json :=
+  match op with
+  | "intern.replay" =>
+    match (do let a ← arr? j "ops"; a.toList.mapM parseOp) with
+    | none => some (bad "intern.replay: parse")
+    | some ops =>
+      let every := (bool? j "every").getD true
+      some (obj [("model", obj [("steps", lastOnly every (traceModel init ops)), ("end", endModel init ops)]),
+                 ("spec", obj [("steps", lastOnly every (traceSpec [] ops)), ("end", toJson (0 : Nat))])])
+  | "intern.utf8" =>
+    match (do let a ← arr? j "bs"; a.toList.mapM natsOf) with
+    | none => some (bad "intern.utf8: parse")
+    | some bs =>
+      -- model: what `cast_str` answers in the protocol model; spec: the UTF-8 definition
+      let viaModel (b : Bytes) : Bool :=
+        match run init [.internBytes b, .castStr 0] with
+        | some s => s.hs.length == 1
+        | none => false
+      some (obj [("model", obj [("valid", toJson (bs.map viaModel))]),
+                 ("spec", obj [("valid", toJson (bs.map validUtf8))])])
+  | "gc.observe" =>
+    -- the statement for the collector half, evaluated on what the harness measured: nothing
+    -- tracked beyond the baseline, nothing pooled beyond the baseline
+    some (obj [("spec", obj [("tracked_leaked", toJson (0 : Nat)), ("pool_leaked", toJson (0 : Nat)),
+                             ("panic", toJson false)])])
+  | _ => none
 
 end JrsVerif.Drv.C18
